@@ -1173,9 +1173,9 @@ func (f *formatter) ExprClosure(n *ast.ExprClosure) {
 	if len(n.Uses) > 0 {
 		f.addFreeFloating(token.T_WHITESPACE, []byte(" "))
 		n.UseTkn = f.newToken(token.T_USE, []byte("use"))
-		n.OpenParenthesisTkn = f.newToken('(', []byte("("))
-		n.SeparatorTkns = f.formatList(n.Uses, ',')
-		n.CloseParenthesisTkn = f.newToken(')', []byte(")"))
+		n.UseOpenParenthesisTkn = f.newToken('(', []byte("("))
+		n.UseSeparatorTkns = f.formatList(n.Uses, ',')
+		n.UseCloseParenthesisTkn = f.newToken(')', []byte(")"))
 	}
 
 	n.ColonTkn = nil
